@@ -141,6 +141,7 @@ func (ir *ifdReader) discard(n int) (err error) {
 	if br, ok := ir.reader.(BufferedReader); ok {
 		n, err = br.Discard(n)
 		ir.po += uint32(n)
+		ir.readError(err)
 		return err
 	}
 	var discarded int
@@ -153,6 +154,7 @@ func (ir *ifdReader) discard(n int) (err error) {
 		ir.po += uint32(discarded)
 		n -= discarded
 	}
+	ir.readError(err)
 	return err
 }
 
